@@ -173,7 +173,7 @@ def sealnonce(rep, prog):
     # the sealing function prepends epk: ciphertext[..32] <- epk from the generated pair
     for s in prog.by_path.get("classic::crypto_box::crypto_box_seal", []):
         ct = s.arg_local("ciphertext")
-        cps = [c for c in s.calls() if c.path == "core::slice::<impl [T]>::copy_from_slice"
+        cps = [c for c in s.calls() if c.path in cm.COPY
                and cm.view_info(s, list(operand_locals(c.args[0]))[0])[0] == ct]
         kp = [c for c in s.calls() if "keypair" in c.rpath]
         okp = bool(cps) and bool(kp) and any(kp[0].dest["l"] in s.backward_slice(operand_locals(c.args[1])) for c in cps)
